@@ -182,7 +182,7 @@ def run_recipe(prog):
             if h % 2 == 0:
                 sel.append((1, 1))          # the caller's list changes after the slice exists
             return sl
-        if 'rect' in ref['r'] and h % 3 == 0:
+        if 'rect' in ref['r']:
             rows, cols = ref['r']['rect']
             if rows == list(range(rows[0], rows[-1] + 1)) and cols == list(range(cols[0], cols[-1] + 1)):
                 # the block of rows is an object the caller KEEPS (one per plate object and row range): used by an earlier step as it is,
@@ -191,7 +191,7 @@ def run_recipe(prog):
                 outer = kept.get(key)
                 if outer is None:
                     outer = kept[key] = pl[rows[0] + 1:rows[-1] + 1]   # rows, 1-based inclusive
-                if cols == list(range(pl.n_columns)) and h % 2:
+                if cols == list(range(pl.n_columns)):
                     return outer
                 return outer[:, cols[0]:cols[-1] + 1]                   # columns of that slice, 0-based exclusive
         return pl[sel]
@@ -871,6 +871,8 @@ def variants(chk, gens_queries, oracle, tag, limit=8):
             chk.violation(f"recipes could not be run under configuration '{name}': {e}", {'relation': 'configuration variant ' + name}, found_input=False)
             continue
         for (rg, qs), prog, (out, qres) in zip(sel, progs, res):
+            if storage and prog.get('no_storage_variants'):
+                continue
             n += len(prog['steps']) + len(qres)
             try:
                 fails, known = oracle(prog, rg, out, qres)
@@ -1008,8 +1010,8 @@ def directed_recipes():
     # a large vessel spiked again and again with a vanishing share of its content: every addition is an inflow
     big = [{'t': 'c', 'name': 1, 'init': [[1, q('1', '', 'L')]]}, {'t': 'c', 'name': 2, 'init': [[1, q('1', 'm', 'L')], [4, q('58.44', 'u', 'g')]]}]
     progs.append({'subs': subs, 'objects': big, 'prefill': [],
-                  'steps': [{'op': 'transfer', 'src': {'c': 2}, 'dst': {'c': 1}, 'q': q('10', 'n', 'L')} for _ in range(6)],
-                  'stages': [{'name': 'st1', 'start': 0, 'stop': 3}], 'queries': []})
+                  'steps': [{'op': 'transfer', 'src': {'c': 2}, 'dst': {'c': 1}, 'q': q('0.5', 'n', 'L')} for _ in range(6)],
+                  'stages': [{'name': 'st1', 'start': 0, 'stop': 3}], 'queries': [], 'no_storage_variants': True})      # ten decimals of a mmol are more than one spike
     return progs
 
 
